@@ -59,6 +59,7 @@ I_C11_Isolation   == J(C11_Isolation)
 I_C17_Rejected    == C17_Rejected(last.pre, last.call, last.res, st, last.g, g,
                                   BadClass(last.call.val))
 I_C17_ReadOnly    == J(C17_ReadOnly)
+I_C18_Bystander   == J(C18_Bystander)
 
 I_C19_Converge ==
   \A p \in Pid, c \in Content, v \in StoreVal :
